@@ -15,3 +15,8 @@ func TestCanon(t *testing.T) {
 	if termEq("(a|b)", "(a|c)") { t.Error("or") }
 	t.Log(canonTerm("cat(hmac($0,\"a|b\"),(x|0))"))
 }
+func TestCanonFold(t *testing.T) {
+	if !termEq("((Sample(x)*100)*1000)", "(Sample(x)*100000)") { t.Error(canonTerm("((Sample(x)*100)*1000)"), canonTerm("(Sample(x)*100000)")) }
+	if !termEq("(($3>>0)&1)", "($3&1)") { t.Error("shift0") }
+	if termEq("(x*100)", "(x*1000)") { t.Error("neq") }
+}
